@@ -22,7 +22,7 @@ from checks.c08_expgrad import gen_dataset, make_moment
 PROPERTY = "C19"
 
 TIERS = {
-    "quick": {"runs": 700, "wall_cap_s": 75, "det_seeds": 16, "fresh_every": 0},
+    "quick": {"runs": 700, "wall_cap_s": 75, "det_seeds": 16, "fresh_every": 175},
     "thorough": {"runs": 16000, "wall_cap_s": 800, "det_seeds": 128, "det_extra_workers": 4, "fresh_every": 25},
 }
 
